@@ -32,8 +32,13 @@ func genPair(t *rapid.T, cx *h.Ctx, disjointMembers bool, stats *gen.Stats) Pair
 	if cx.Thorough {
 		kmax = 4
 	}
-	if rapid.IntRange(0, 7).Draw(t, "holefamily") == 0 {
+	// (rapid's IntRange favours the ends of the range: the values 0 and 11 are drawn far more often than 1/12)
+	switch rapid.IntRange(0, 11).Draw(t, "holefamily") {
+	case 0:
 		return genHolePair(t, cx, disjointMembers, stats)
+	case 5:
+		// stats != nil marks the C01 caller: small shapes there
+		return genFloatPair(t, cx, disjointMembers, stats != nil)
 	}
 	k := rapid.IntRange(2, kmax).Draw(t, "k")
 	ca := gen.DrawComplex(t, k, [2]int{0, 0})
@@ -130,7 +135,7 @@ func genHolePair(t *rapid.T, cx *h.Ctx, disjointMembers bool, stats *gen.Stats) 
 // pairDomain classifies a pair: strict (clearance >= 1e-6 x magnitude) or sub-tolerance.
 func pairStrict(ar *exact.Arrangement) bool {
 	mag := ar.Magnitude()
-	if mag < 1 {
+	if mag == 0 {
 		mag = 1
 	}
 	cl := ar.MinClearanceFloat()
